@@ -123,6 +123,17 @@ def m2(ctx):
     ctx.check(C.loop_exhaustive(b, lp), "all-enodes", "the e-node loop exits only when enodes_applied(i) is exhausted",
               "the e-node loop of ematch_impl can be left early", where_of(b, lp[0]))
     bad = sorted({x[1] for x in role_walk(lp[1]) if isinstance(x, tuple) and x[0] == "call" and x[1] in BAD_ADAPTORS})
+    if bad == ["filter"]:
+        # the operator test may sit in a filter of the loop's iterator: admissible iff it is discriminant equality
+        okf = True
+        for x in role_walk(lp[1]):
+            if isinstance(x, tuple) and x[0] == "call" and x[1] == "filter" and len(x[3]) == 2:
+                cl = C._closure_of_role(crate, x[3][1])
+                r = strip_role(cl.role_of_local(0)) if hasattr(cl, "calls") else None
+                ds = [y for y in role_walk(r) if isinstance(y, tuple) and y[0] == "call" and y[1] == "discriminant"] if r is not None else []
+                okf = okf and isinstance(r, tuple) and r[0] == "call" and r[1] == "eq" and bool(ds)
+        if okf:
+            bad = []
     ctx.check(not bad, "enodes-unfiltered", "no dropping adaptor on enodes_applied(i)", "the e-node loop iterates through %s" % bad, where_of(b, lp[0]))
     en = [c for c in b.calls if c.callee and c.callee.name == "enodes_applied"]
     for c in en:
